@@ -201,9 +201,19 @@ def _op_of(cls, desc):
     """operation and failing side of a site: `index_mut #upper`"""
     if cls == "S5":
         return desc
+    if " ~" in desc:
+        part_ = re.search(r" (#[a-z+0-9!<>= ()&*._-]+)$", desc)
+        desc = desc.split(" ~")[0] + ((" " + part_.group(1)) if part_ else "")
     m = re.match(r"^([A-Za-z_][\w:]*)", desc)
     part = re.search(r" (#[a-z+0-9!<>= ()&*._-]+)$", desc)
     return (m.group(1) if m else desc.split("(")[0]) + ((" " + part.group(1)) if part else "")
+
+
+def _skel_of(desc):
+    """skeleton and failing side of a description / key shape: `index(_, (_ + 1)) #upper`"""
+    if " ~" not in desc:
+        return None
+    return desc.split(" ~", 1)[1].split("|in=")[0]
 
 
 _IDENT = re.compile(r"[A-Za-z_][A-Za-z0-9_]*")
@@ -220,10 +230,10 @@ def coarse_desc(cls, desc):
     def sub(m):
         w = m.group(0)
         i, j = m.start(), m.end()
-        if i > 0 and desc[i - 1].isdigit():
+        if i > 0 and body[i - 1].isdigit():
             return w            # the tail of a number literal (0x100)
-        if w == "self" or w[0].isupper() or (i > 0 and desc[i - 1] == ".") or desc[j:j + 1] == "(" or desc[max(0, i - 3):i] == "as " \
-                or desc[j:j + 1] == ":" or desc[max(0, i - 1):i] == ":":
+        if w == "self" or w[0].isupper() or (i > 0 and body[i - 1] == ".") or body[j:j + 1] == "(" or body[max(0, i - 3):i] == "as " \
+                or body[j:j + 1] == ":" or body[max(0, i - 1):i] == ":":
             return w
         if w == "as":
             return w
@@ -232,6 +242,10 @@ def coarse_desc(cls, desc):
     part = re.search(r" (#[a-z+0-9!<>= ()&*._-]+)$", desc)
     if part:
         body = desc[:part.start()]
+    skel = ""
+    if " ~" in body:
+        body, skel = body.split(" ~", 1)
+        skel = " ~" + skel
     out = []
     pos = 0
     for m in _IDENT.finditer(body):
@@ -239,7 +253,7 @@ def coarse_desc(cls, desc):
         out.append(sub(m))
         pos = m.end()
     out.append(body[pos:])
-    return "".join(out) + ((" " + part.group(1)) if part else "")
+    return "".join(out) + skel + ((" " + part.group(1)) if part else "")
 
 
 def run_scope(chk, scope, roots, floor_roots, floor_bodies, floor_sinks, reviewed_file, trust_caret=True, extra_known_roots=(), invariants=None):
@@ -335,7 +349,7 @@ def run_scope(chk, scope, roots, floor_roots, floor_bodies, floor_sinks, reviewe
                 rec["trusted"].append((rec["origin"], [rec["origin"]], "T4"))
                 rec["fails"] = []
         # D5/R-regex: caps.get(k).unwrap() on a capture group that participates in every match
-        m = _re.match(r"^unwrap\(get\(&.*, (\d+)\)\)$", rec["desc"]) if rec["fails"] and rec["cls"] == "S4" else None
+        m = _re.match(r"^unwrap\(get\(&.*, (\d+)\)\)$", rec["desc"].split(" ~")[0]) if rec["fails"] and rec["cls"] == "S4" else None
         if m:
             ob = f.bodies[rec["origin"]]
             statics = regex_statics_in(f, ob)
@@ -365,7 +379,7 @@ def run_scope(chk, scope, roots, floor_roots, floor_bodies, floor_sinks, reviewe
             if fin != F.short_name(rec["origin"]):
                 key += "|in=" + fin
                 fine += "|in=" + fin
-            chk.finding(key, detail=fine, moved=(rec["origin"], rec["cls"], _op_of(rec["cls"], rec["desc"])), rule="R-PANIC/%s" % rec["cls"],
+            chk.finding(key, detail=fine, moved=(rec["origin"], rec["cls"], _op_of(rec["cls"], rec["desc"])), skel=_skel_of(rec["desc"]), rule="R-PANIC/%s" % rec["cls"],
                         where="%s:%s" % (rec["file"], rec["line"]), fn=F.short_name(rec["origin"]),
                         what=rec["what"], why="not discharged by D1-D8, not trusted (T1,T2,T5), not lifted to a caller that proves it",
                         path=" <- ".join(F.short_name(x) for x in chain[:6]), undischarged_in=fin)
